@@ -16,31 +16,44 @@ open GV GV.M GV.JT
 /-- the escaper always produces a legal JSON string body: no raw quote, no raw control byte, only legal escapes,
     valid UTF-8 — for arbitrary input bytes (quotes, controls, invalid / truncated / overlong UTF-8, surrogates) -/
 theorem C20_escape_wellformed (s : Bytes) : strBodyOK (jsonEscape s) = true ∧ validUtf8 (jsonEscape s) = true := by
-  sorry
+  refine ⟨?_, validUtf8_escape s⟩
+  have := (Frag.escape s).sb []
+  simpa [strBodyOK] using this
 
 /-- a reader gets back exactly the bytes of valid UTF-8 data, and U+FFFD for each invalid byte otherwise -/
 theorem C20_escape_roundtrip (s : Bytes) : unescape (jsonEscape s) = some (sanitize s) := by
-  sorry
+  have := (Frag.escape s).un []
+  simpa [unescape] using this
 
-theorem C20_valid_verbatim (s : Bytes) (h : validUtf8 s = true) : sanitize s = s := by
-  sorry
+theorem C20_valid_verbatim (s : Bytes) (h : validUtf8 s = true) : sanitize s = s :=
+  sanitize_valid s h
 
 /-- SQL NULL is rendered as JSON null, distinct from the empty string -/
 theorem C20_null_vs_empty (c : JCol) :
     (∃ pre, marshalCol { c with data := none } = pre ++ asc "\"data\":null}" ∧
             marshalCol { c with data := some [] } = pre ++ asc "\"data\":\"\"}") ∧
     shapeCol { c with data := none } ≠ shapeCol { c with data := some [] } := by
-  sorry
+  refine ⟨⟨asc "{" ++ jkey "filed" ++ jstr c.filed ++ asc "," ++ jkey "type" ++ jstr (asc (columnTypeName c.typ)) ++
+      asc "," ++ jkey "isEmpty" ++ (if c.isEmpty then asc "true" else asc "false") ++ asc ",", ?_, ?_⟩, ?_⟩
+  · have : jkey "data" ++ (asc "null" ++ asc "}") = asc "\"data\":null}" := by decide
+    simp only [marshalCol, List.append_assoc, this]
+  · have : jkey "data" ++ (jstr [] ++ asc "}") = asc "\"data\":\"\"}" := by decide
+    simp only [marshalCol, List.append_assoc, this]
+  · intro h
+    simp only [shapeCol, jstrV] at h
+    injection h with h
+    simp at h
 
 /-- a column parses back to its name, type name, absent flag and data -/
 theorem C20_column_structure (c : JCol) (rest : Bytes) (hr : rest.head? ≠ some 0x22 ∨ True) :
     ∃ fuel, ∀ f, fuel ≤ f → parseJV f (marshalCol c ++ rest) = some (shapeCol c, rest) := by
-  sorry
+  have _ := hr
+  exact ⟨(marshalCol c).length + 1, fun f hf => PJ_col c f rest (by omega)⟩
 
 /-- Serialising any transaction yields well-formed JSON that parses back to exactly its structure: both positions,
     event kinds and order, table names, SQL text, and per column name, type name, absent flag and data. -/
-theorem C20_structure (fmtTime : Int → Bytes) (t : JTx) : parse (marshalTx fmtTime t) = some (shapeTx fmtTime t) := by
-  sorry
+theorem C20_structure (fmtTime : Int → Bytes) (t : JTx) : parse (marshalTx fmtTime t) = some (shapeTx fmtTime t) :=
+  parse_of_PJ (PJ_tx fmtTime t)
 
 /-! non-vacuity -/
 example : strBodyOK (jsonEscape [0, 34, 92, 200, 0xe2, 0x80, 0xa8]) = true := by decide
